@@ -223,3 +223,154 @@ def mk_eqT(T: 'Type', a: 'Term', b: 'Term') -> 'Term':
 def sem_equiv_pos2(T: 'Type', a: 'Term', b: 'Term'):
     requires(wfb(mk_disj(mk_not(mk_eqT(T, a, b)), mk_disj(mk_not(a), b))))
     ensures(pv(mk_disj(mk_not(mk_eqT(T, a, b)), mk_disj(mk_not(a), b))))
+
+
+# ---------------------------------------------------------------- n-ary disjunctions / conjunctions
+def sd(t: 'Term') -> 'seq[Term]':
+    """members of the right-nested disjunction t (what Term.strip_disj returns)"""
+    if bin_c(t, 'disj'):
+        return [t.fun.arg] + sd(t.arg)
+    else:
+        return [t]
+
+
+def sc(t: 'Term') -> 'seq[Term]':
+    """members of the right-nested conjunction t (what Term.strip_conj returns)"""
+    if bin_c(t, 'conj'):
+        return [t.fun.arg] + sc(t.arg)
+    else:
+        return [t]
+
+
+@lemma
+def pv_any_at(ts: 'seq[Term]', i: int, j: int):
+    """a true member at position j >= i makes the disjunction from i on true"""
+    requires(0 <= i and i <= j and j < len(ts))
+    decreases(j - i)
+    if i < j:
+        pv_any_at(ts, i + 1, j)
+    ensures(implies(pv(ts[j]), pv_any(ts, i)))
+
+
+@lemma
+def pv_all_at(ts: 'seq[Term]', i: int, j: int):
+    requires(0 <= i and i <= j and j < len(ts))
+    decreases(j - i)
+    if i < j:
+        pv_all_at(ts, i + 1, j)
+    ensures(implies(pv_all(ts, i), pv(ts[j])))
+
+
+def pv_anyl(ts: 'seq[Term]') -> bool:
+    """some member of ts is true (head / tail recursion)"""
+    if len(ts) == 0:
+        return False
+    else:
+        return pv(ts[0]) or pv_anyl(ts[1:])
+
+
+@lemma
+def pv_sdl(t: 'Term'):
+    decreases(t)
+    if bin_c(t, 'disj'):
+        pv_sdl(t.arg)
+        assert sd(t) == [t.fun.arg] + sd(t.arg)
+        assert sd(t)[0] == t.fun.arg
+        assert sd(t)[1:] == sd(t.arg)
+        assert pv_anyl(sd(t)) == (pv(t.fun.arg) or pv_anyl(sd(t.arg)))
+    ensures(pv_anyl(sd(t)) == pv(t) and len(sd(t)) >= 1)
+
+
+@lemma
+def pv_anyl_at(ts: 'seq[Term]', j: int):
+    requires(0 <= j and j < len(ts))
+    decreases(j)
+    if j > 0:
+        pv_anyl_at(ts[1:], j - 1)
+    ensures(implies(pv(ts[j]), pv_anyl(ts)))
+
+
+@lemma
+def slice_tail(ts: 'seq[Term]', i: int):
+    requires(0 <= i and i < len(ts))
+    ensures(len(ts[i:]) == len(ts) - i)
+    ensures(ts[i:][0] == ts[i])
+    ensures(ts[i:][1:] == ts[i + 1:])
+
+
+@lemma
+def pv_anyl_any(ts: 'seq[Term]', i: int):
+    """the two styles agree"""
+    requires(0 <= i and i <= len(ts))
+    decreases(len(ts) - i)
+    if i < len(ts):
+        pv_anyl_any(ts, i + 1)
+        slice_tail(ts, i)
+        assert pv_anyl(ts[i:]) == (pv(ts[i]) or pv_anyl(ts[i + 1:]))
+    else:
+        assert len(ts[i:]) == 0
+    ensures(pv_anyl(ts[i:]) == pv_any(ts, i))
+
+
+def pv_alll(ts: 'seq[Term]') -> bool:
+    """every member of ts is true (head / tail recursion)"""
+    if len(ts) == 0:
+        return True
+    else:
+        return pv(ts[0]) and pv_alll(ts[1:])
+
+
+@lemma
+def pv_scl(t: 'Term'):
+    decreases(t)
+    if bin_c(t, 'conj'):
+        pv_scl(t.arg)
+        assert sc(t) == [t.fun.arg] + sc(t.arg)
+        assert sc(t)[0] == t.fun.arg
+        assert sc(t)[1:] == sc(t.arg)
+        assert pv_alll(sc(t)) == (pv(t.fun.arg) and pv_alll(sc(t.arg)))
+    ensures(pv_alll(sc(t)) == pv(t) and len(sc(t)) >= 1)
+
+
+@lemma
+def pv_alll_all(ts: 'seq[Term]', i: int):
+    requires(0 <= i and i <= len(ts))
+    decreases(len(ts) - i)
+    if i < len(ts):
+        pv_alll_all(ts, i + 1)
+        slice_tail(ts, i)
+        assert pv_alll(ts[i:]) == (pv(ts[i]) and pv_alll(ts[i + 1:]))
+    else:
+        assert len(ts[i:]) == 0
+    ensures(pv_alll(ts[i:]) == pv_all(ts, i))
+
+
+@lemma
+def pv_sd0(t: 'Term'):
+    """the members of a disjunction, as a clause, mean what the disjunction means"""
+    pv_sdl(t)
+    pv_anyl_any(sd(t), 0)
+    assert sd(t)[0:] == sd(t)
+    ensures(pv_any(sd(t), 0) == pv(t) and len(sd(t)) >= 1)
+
+
+@lemma
+def pv_sc0(t: 'Term'):
+    pv_scl(t)
+    pv_alll_all(sc(t), 0)
+    assert sc(t)[0:] == sc(t)
+    ensures(pv_all(sc(t), 0) == pv(t) and len(sc(t)) >= 1)
+
+
+@lemma
+def pv_anyl0(ts: 'seq[Term]'):
+    pv_anyl_any(ts, 0)
+    assert ts[0:] == ts
+    ensures(pv_anyl(ts) == pv_any(ts, 0))
+
+
+@lemma
+def pv_anyl_cons(a: 'Term', s: 'seq[Term]'):
+    assert ([a] + s)[0] == a
+    assert ([a] + s)[1:] == s
+    ensures(pv_anyl([a] + s) == (pv(a) or pv_anyl(s)))
